@@ -453,6 +453,7 @@ class GenCfg:
     inheritance: bool = False
     docs: bool = False
     foreign: bool = False
+    shared_member_names: bool = False  # nested classes reuse member names of their outer class
     twins: bool = False  # modules with the same name (and some equal declaration names) in different packages
     twin_module_reexports: bool = False  # star / module-alias re-exports of a module whose name another module shares
 
@@ -601,7 +602,19 @@ def _random_cls(rng, names, priv, public_classes, m, cfg, depth) -> Cls:
         c.methods.append(_random_fn(rng, names, rng.random() < cfg.p_private_decl, role, public_classes, m, cfg))
     if cfg.nested_classes and depth < 2 and rng.random() < 0.35:
         for _ in range(rng.choice([1, 1, 2, 3])):
-            c.nested.append(_random_cls(rng, names, rng.random() < cfg.p_private_decl, public_classes, m, cfg, depth + 1))
+            inner = _random_cls(rng, names, rng.random() < cfg.p_private_decl, public_classes, m, cfg, depth + 1)
+            if cfg.shared_member_names and rng.random() < 0.5:
+                # the same attribute / method names in the outer and the nested class (each class is its own namespace)
+                for a in c.cattrs[:2]:
+                    if not any(x.name == a.name for x in inner.cattrs):
+                        inner.cattrs.append(Attr(a.name, "str", '"n"'))
+                for a in c.iattrs[:1]:
+                    if not any(x.name == a.name for x in inner.iattrs + inner.cattrs):
+                        inner.iattrs.append(Attr(a.name, "int", "1"))
+                for f in c.methods[:1]:
+                    if f.role == "inst" and not any(x.name == f.name for x in inner.methods):
+                        inner.methods.append(Fn(f.name, [Param(names.fresh("sh"), "int")], "int", role="inst"))
+            c.nested.append(inner)
     return c
 
 
